@@ -53,6 +53,7 @@ type Decl struct {
 	// World state (C20): the default slice object of a multi-valued declaration as the user's program
 	// holds it. When set, every build passes this very slice to the library, the way a program that
 	// declares `Value: defaultTags` does; resetWorld re-creates it at the start of each history.
+	sharedWith  *Decl // the host program passes the very same default slice to this declaration and to sharedWith
 	liveStrings []string
 	liveInts    []int
 	liveFloats  []float64
@@ -639,6 +640,9 @@ func (inst *Instance) declare(c *cli.Cmd, cd *CmdDecl, d *Decl) {
 		def := append([]string(nil), d.DefList...)
 		if d.live {
 			def = d.liveStrings
+		}
+		if d.sharedWith != nil && d.sharedWith.live {
+			def = d.sharedWith.liveStrings
 		}
 		var prm cli.StringsParam
 		if d.IsArg {
